@@ -830,7 +830,7 @@ func (fe *FnEnc) makeInterface(x *ssa.MakeInterface) Val {
 	term := fe.valTerm(v)
 	n := s.name("ifc", "Int", "("+box+" "+term+")")
 	s.assert(fmt.Sprintf("(and (not (= %s 0)) (= (ityp %s) %d) (= (%s %s) %s))", n, n, id, unbox, n, term))
-	return Val{T: x.Type(), Term: n}
+	return Val{T: x.Type(), Term: n, Boxed: &v}
 }
 
 func (fe *FnEnc) typeAssert(x *ssa.TypeAssert) Val {
